@@ -649,6 +649,66 @@ def check_groupby_concurrent(case):
 
 
 @st.composite
+def loop_switch_cases(draw, tier):
+    from . import c10
+
+    case = draw(c10.histories(draw(st.sampled_from(["function", "method", "staticmethod"])), tier))
+    ops = case["ops"]
+    for _ in range(draw(st.integers(1, 4))):
+        ops.insert(draw(st.integers(1, len(ops))), ["switch-loop", 0])
+    case["loops"] = draw(st.lists(st.sampled_from(["none", "asyncio", "asyncio", "thread-asyncio"]), min_size=2, max_size=5))
+    return case
+
+
+def check_loop_switch(case):
+    """a C10 history of ONE cached function whose segments run under different event loops (no asyncio loop at all,
+    a fresh ``asyncio.run``, an asyncio loop in another thread): the cache is loop-agnostic state - hits, misses,
+    contents and results are those of functools over the whole history"""
+    import asyncio
+    import threading
+    from . import c10
+
+    def drive(coro):
+        loops = list(case["loops"])
+        k = 0
+
+        def segment():
+            # steps the history until it asks for another loop (or ends)
+            try:
+                token = coro.send(None)
+            except StopIteration as stop:
+                return ("return", stop.value)
+            except BaseException as exc:  # noqa: B902
+                return ("raise", exc)
+            if not isinstance(token, c10.LoopSwitch):
+                coro.close()
+                return ("raise", RuntimeError(f"the history suspended on {token!r}"))
+            return None
+
+        while True:
+            kind = loops[k % len(loops)]
+            k += 1
+            if kind == "none":
+                done = segment()
+            elif kind == "asyncio":
+                done = under_asyncio(segment)
+            else:
+                box = []
+                t = threading.Thread(target=lambda: box.append(under_asyncio(segment)))
+                t.start()
+                t.join()
+                done = box[0]
+            if done is not None:
+                return done
+
+    try:
+        ret = c10.check(case, drive=drive)
+    except Violation as v:
+        raise Violation("C17/lru_cache-across-loops/" + v.bucket.split("/", 1)[-1], f"loops={case['loops']} {v.detail}") from None
+    return dict(ret, nontrivial=[])  # (counted by the shard's own rule: segments under >= 2 kinds of loop)
+
+
+@st.composite
 def batteries(draw, tier):
     names = draw(st.lists(st.sampled_from(ALL), min_size=12, max_size=12))
     return {"cases": [draw(c18.tool_cases(n, tier)) for n in names]}
@@ -693,6 +753,8 @@ def shards(tier):
                      nontrivial=lambda c: True, thorough_mult=10))
     out.append(Shard("groupby-concurrent", check_groupby_concurrent, strategy=groupby_conc_cases(), n=400,
                      nontrivial=lambda c: True, thorough_mult=10))
+    out.append(Shard("lru_cache-across-loops", check_loop_switch, strategy=loop_switch_cases(tier), n=300,
+                     nontrivial=lambda c: len(set(c["loops"])) >= 2, thorough_mult=10))
     out.append(Shard("contextmanager-programs", check_cm_program, cases=cm_programs,
                      nontrivial=lambda c: c["handler"] != "none", exhaustive=True))
     out.append(Shard("sync-adapters", check_adapter, cases=lambda: [{"adapter": k} for k in _adapters()],
